@@ -403,17 +403,34 @@ func (w *Worker) decideTerm(c *Term, tag string) bool {
 		w.assertPC(w.tt.Not(c))
 		return false
 	}
-	// beyond the prefix: ask the solver
+	// beyond the prefix: ask the solver (a cached model of the path condition answers one side for free)
 	nc := w.tt.Not(c)
-	rt, _ := w.solver.Check(c, nil)
-	if rt == Unknown {
-		w.endPath("unsupported", "solver unknown at branch "+tag)
+	vars := w.nondetVars()
+	var rt, rf Result
+	var mt, mf map[string]uint64
+	known := -1
+	if w.model != nil {
+		if c.Eval(w.model, map[int32]uint64{}) != 0 {
+			known = 1
+		} else {
+			known = 0
+		}
 	}
-	var rf Result
-	if rt == Unsat {
-		rf = Sat // pc is satisfiable, so the other side must be
+	if known == 1 {
+		rt, mt = Sat, w.model
 	} else {
-		rf, _ = w.solver.Check(nc, nil)
+		rt, mt = w.solver.Check(c, vars)
+		if rt == Unknown {
+			w.endPath("unsupported", "solver unknown at branch "+tag)
+		}
+	}
+	switch {
+	case known == 0:
+		rf, mf = Sat, w.model
+	case rt == Unsat:
+		rf, mf = Sat, w.model // pc is satisfiable, so the other side must be
+	default:
+		rf, mf = w.solver.Check(nc, vars)
 		if rf == Unknown {
 			w.endPath("unsupported", "solver unknown at branch "+tag)
 		}
@@ -437,9 +454,11 @@ func (w *Worker) decideTerm(c *Term, tag string) bool {
 	w.dpos++
 	w.st.transitions++
 	if first == 1 {
+		w.model = mt
 		w.assertPC(c)
 		return true
 	}
+	w.model = mf
 	w.assertPC(nc)
 	return false
 }
@@ -523,17 +542,24 @@ func (w *Worker) concretize(t *Term, tag string) uint64 {
 	for _, e := range excl {
 		cond = w.tt.And(cond, w.tt.Not(w.tt.Eq(t, w.tt.Const(t.W, e))))
 	}
-	res, model := w.solver.Check(cond, []*Term{w.valueProbe(t)})
-	if res == Unknown {
-		w.endPath("unsupported", "solver unknown concretising "+tag)
-	}
-	if res == Unsat {
-		if len(excl) == 0 {
-			w.endPath("infeasible", "no value when concretising "+tag)
+	var val uint64
+	if w.model != nil && len(excl) == 0 {
+		val = t.Eval(w.model, map[int32]uint64{}) & maskB(t.W)
+	} else {
+		probe := w.valueProbe(t)
+		res, model := w.solver.Check(cond, append(w.nondetVars(), probe))
+		if res == Unknown {
+			w.endPath("unsupported", "solver unknown concretising "+tag)
 		}
-		w.endPath("exhausted", "")
+		if res == Unsat {
+			if len(excl) == 0 {
+				w.endPath("infeasible", "no value when concretising "+tag)
+			}
+			w.endPath("exhausted", "")
+		}
+		val = model[probe.Name] & maskB(t.W)
+		w.model = model
 	}
-	val := model[w.valueProbe(t).Name] & maskB(t.W)
 	// queue the search for further values
 	nexcl := append(append([]uint64{}, excl...), val)
 	w.ex.push(append(w.decs[:len(w.decs):len(w.decs)], Decision{Kind: DecValueNot, Excl: nexcl, Tag: tag}))
@@ -567,10 +593,19 @@ func (w *Worker) assertPC(c *Term) {
 	}
 	w.pc = append(w.pc, c)
 	w.solver.Assert(c)
+	w.checkModel(c)
 }
 
 func (w *Worker) assertPCNoRecord(c *Term) {
 	w.solver.Assert(c)
+	w.checkModel(c)
+}
+
+// checkModel drops the cached model when it does not satisfy a new constraint.
+func (w *Worker) checkModel(c *Term) {
+	if w.model != nil && c.Eval(w.model, map[int32]uint64{}) == 0 {
+		w.model = nil
+	}
 }
 
 func (w *Worker) endPath(kind, why string) {
